@@ -294,8 +294,12 @@ def sum_extensionality(c):
     import itertools
     sums = list(c.sums.values())
     facts = []
+    deadline = time.time() + 12.0          # an optimisation for the solver only: never worth more than a few seconds
     for i in range(len(sums)):
         for j in range(i + 1, len(sums)):
+            if time.time() > deadline:
+                c.sum_eqs = facts
+                return len(facts)
             s1, s2 = sums[i], sums[j]
             if s1.arity != s2.arity or s1.arity > 6:
                 continue
@@ -308,11 +312,11 @@ def sum_extensionality(c):
                 if any(str(s2.sorts[m]) != str(s1.sorts[perm[m]]) for m in range(s1.arity)):
                     continue
                 tried += 1
-                if tried > 150:
+                if tried > 24 or time.time() > deadline:
                     break
                 qs = [ps[perm[m]] for m in range(s1.arity)]
                 slv = z3.Solver()
-                slv.set('timeout', 1000)
+                slv.set('timeout', 300)
                 slv.add(s1.body(k, *ps) != s2.body(k, *qs))
                 if slv.check() == z3.unsat:
                     a, b = z3.Ints('a?e b?e')
@@ -321,6 +325,34 @@ def sum_extensionality(c):
                     break
     c.sum_eqs = facts
     return len(facts)
+
+
+_SMT_JOB = None
+
+
+def _smt_one(i):
+    c, todo = _SMT_JOB
+    o = todo[i]
+    try:
+        return solve.to_smt2(c, o.hyps, o.goal, ground=getattr(o, 'ground', False))
+    except z3.Z3Exception as e:
+        return e
+
+
+def _smt_texts(c, todo):
+    """SMT-LIB text of every obligation; serialisation of large hypothesis sets is the slow part of a big unit, so it
+    is spread over forked workers (the z3 terms are inherited by fork, only the texts come back)"""
+    global _SMT_JOB
+    _SMT_JOB = (c, todo)
+    try:
+        nproc = int(os.environ.get('VERIF_JOBS', '0')) or min(16, os.cpu_count() or 4)
+        if len(todo) < 48 or nproc <= 1:
+            return [_smt_one(i) for i in range(len(todo))]
+        import multiprocessing as mp
+        with mp.get_context('fork').Pool(nproc) as pl:
+            return pl.map(_smt_one, range(len(todo)), chunksize=max(1, len(todo) // (4 * nproc)))
+    finally:
+        _SMT_JOB = None
 
 
 def verify_unit(unit, tier='quick', dump_dir=None):
@@ -359,15 +391,17 @@ def verify_unit(unit, tier='quick', dump_dir=None):
             return res
         sum_extensionality(c)
         ctxs.append((label, c, ex))
+        todo = []
         for o in ex.obls:
             o.name = label + o.name
             if z3.is_true(z3.simplify(o.goal)) if is_sym(o.goal) else o.goal is True:
                 res.obls.append(OblResult(o.name, o.kind, o.line, 'unsat', 0.0, 'syntactic'))
                 continue
-            try:
-                text = solve.to_smt2(c, o.hyps, o.goal, ground=getattr(o, 'ground', False))
-            except z3.Z3Exception as e:
-                res.error = ('engine', 'smt encoding of %s: %s' % (o.name, e))
+            todo.append(o)
+        texts = _smt_texts(c, todo)
+        for o, text in zip(todo, texts):
+            if isinstance(text, Exception):
+                res.error = ('engine', 'smt encoding of %s: %s' % (o.name, text))
                 return res
             jobs.append((o.name, text))
             meta[o.name] = o
